@@ -66,7 +66,10 @@ func (x *Exec) contractEnvAtEntry(st *State, fr *Frame, c *Contract) *specEnv {
 }
 
 func (x *Exec) exitEnv(st *State, fr *Frame, c *Contract) *specEnv {
-	env := &specEnv{x: x, st: st, vars: map[string]Val{}, old: st.entry, where: "exit of " + c.Key}
+	env := &specEnv{x: x, st: st, vars: map[string]Val{}, old: st.entry, where: "exit of " + c.Key, frame: fr}
+	if syn := fr.fn.Syntax(); syn != nil {
+		env.pos = syn.End() - 1
+	}
 	for _, p := range fr.fn.Params {
 		env.vars[p.Name()] = fr.regs[p]
 	}
@@ -115,7 +118,7 @@ func (x *Exec) checkEnsures(st *State, fr *Frame, res Val) {
 // checkFrame: every heap array that differs from its entry version may differ only at the references named by
 // the modifies clause (evaluated in the entry state), at freshly allocated references, and at nil.
 func (x *Exec) checkFrame(st *State, fr *Frame, c *Contract, at string) {
-	if !c.HasMod {
+	if !c.HasMod || c.NoFrame {
 		return // no frame claimed
 	}
 	for _, l := range c.Modifies {
@@ -848,6 +851,20 @@ func (x *Exec) evalCall(env *specEnv, n *ast.CallExpr, hint types.Type, cl *Clau
 			}
 		}
 		x.specFail(cl, "len of %s", exprStr(n.Args[0]))
+	case "now":
+		// current value of a variable of the function (a parameter may have been re-assigned)
+		need(1)
+		id, ok := n.Args[0].(*ast.Ident)
+		if !ok || env.frame == nil {
+			x.specFail(cl, "now(x): x must be a variable of the function and the clause must be evaluated inside it")
+		}
+		sub := *env
+		sub.inOld = false
+		v, found := x.localByName(&sub, id.Name)
+		if !found {
+			x.specFail(cl, "now(%s): no such variable", id.Name)
+		}
+		return v
 	case "addr":
 		// address of a struct-valued field, e.g. addr(t.mu)
 		need(1)
